@@ -248,4 +248,58 @@ theorem C04_miter_ge_one (m : Rat) : 1 ≤ clampMiter m := by
   · exact le_refl _
   · exact not_lt.mp h
 
+
+/-! ### at least two stops survive -/
+
+theorem shiftRec_length (rest : List Rat) (p2 : Option Rat) (p1 : Rat) :
+    (shiftRec p2 p1 rest).length = rest.length + 1 := by
+  induction rest generalizing p2 p1 with
+  | nil => simp [shiftRec]
+  | cons n rest ih =>
+    simp only [shiftRec]
+    split_ifs <;> simp [ih]
+
+theorem shiftEqual_length (l : List Rat) : (shiftEqual l).length = l.length := by
+  cases l with
+  | nil => rfl
+  | cons a rest => simp [shiftEqual, shiftRec_length]
+
+theorem zeroStep_length (l : List Rat) (i : Nat) : (zeroStep l i).length = l.length := by
+  unfold zeroStep
+  split
+  · split_ifs <;> simp
+  · rfl
+
+theorem fixZeros_length (l : List Rat) : (fixZeros l).length = l.length := by
+  unfold fixZeros
+  generalize List.range (l.length - 1) = idx
+  induction idx generalizing l with
+  | nil => rfl
+  | cons i t ih => simp only [List.foldl_cons]; rw [ih, zeroStep_length]
+
+theorem dedup_length_ge_two (fuel i : Nat) (l : List Rat) (h : 2 ≤ l.length) :
+    2 ≤ (dedupTriples fuel i l).length := by
+  induction fuel generalizing i l with
+  | zero => simpa [dedupTriples] using h
+  | succ f ih =>
+    unfold dedupTriples
+    split_ifs with h3 hi
+    · exact h
+    · split
+      · split_ifs
+        · apply ih
+          rw [List.length_eraseIdx]
+          split_ifs <;> omega
+        · exact ih _ _ h
+      · exact h
+    · exact h
+
+/-- **C04 (at least two stops)**: a gradient given two or more stops keeps at least two through
+    all three normalisation passes (only the middle one of three equal offsets is ever removed). -/
+theorem C04_at_least_two_stops (raw : List Rat) (h : 2 ≤ raw.length) : 2 ≤ (normalizeOffsets raw).length := by
+  unfold normalizeOffsets
+  simp only [shiftEqual_length, fixZeros_length]
+  apply dedup_length_ge_two
+  simpa using h
+
 end Resvg.Props.C04
